@@ -527,4 +527,12 @@ theorem cg_no_breakdown_model (n : Nat) (A : Nat â†’ Nat â†’ â„) (b : Nat â†’ â
       unfold cgQ; rw [toVec_tab, toVec_matVec]
     rw [dot_toVec, hq, hp]; exact hnb.2
 
+theorem cgHistory_eq (o : CGObj â„) (cs : List (CGCall â„)) :
+    cgHistory o cs = (o, cs.map fun c => cgForward c.n o.tol o.maxiter c.A c.b c.x0 c.M) := by
+  induction cs with
+  | nil => rfl
+  | cons c cs ih =>
+    unfold cgHistory
+    simp only [cgCall, ih, List.map_cons]
+
 end PP.LinSolve
